@@ -29,6 +29,7 @@ CONSTANTS
                 \*   muxGuess : origins whose still-connecting connections report "available"
                 \*   noKeep   : requests whose response forbids reuse (Connection: close, HTTP/1.0,
                 \*              close-delimited body)
+                \*   dev      : the deviations switched on (set from the constant Deviations)
   None,
   NoExpiry,
   NoTimeout,
@@ -76,7 +77,7 @@ vars  == <<cfg, pool, nextc, cvars, evicted, queue, rvars, clock, budget, pclose
 Terminal == {"done", "failed", "timedout", "cancelled"}
 Live(r)  == pc[r] \notin Terminal \cup {"init"}
 
-Dev(d) == d \in Deviations     \* a deviation ADDS behaviour: the intended one stays possible
+Dev(d) == d \in cfg.dev        \* a deviation ADDS behaviour: the intended one stays possible
 OriginOf == cfg.originOf
 MaxConn  == cfg.maxConn
 MaxKeep  == cfg.maxKeep
@@ -247,7 +248,7 @@ InitRest ==
   /\ wdl = [r \in Req |-> NoTimeout]
   /\ clock = 0 /\ budget = Faults /\ pclosed = FALSE
 
-Init == cfg \in Cfgs /\ InitRest
+Init == cfg \in {[c EXCEPT !.dev = Deviations] : c \in Cfgs} /\ InitRest
 
 (***************************************************************************)
 (* Caller arrives: enqueue (pool 218-221) and run a pass (225-229).        *)
